@@ -638,9 +638,88 @@ func c04RoleFlip(password string, bound int) *world.Scenario {
 	return sc
 }
 
+// c04SlotsDropped: a topology update takes slots away without giving them to anybody (a master failed without promotion,
+// DELSLOTS, a range moved to another live master): after the proxy adopted it, a key of a dropped range must not be sent
+// to its former owner (it has no owner in the proxy's current topology), a key of a moved range goes to the new owner.
+func c04SlotsDropped(kind string, bound int) *world.Scenario {
+	before := T3m()
+	var after []world.NodeSpec
+	var gone, moved string
+	switch kind {
+	case "range-unowned":
+		after, gone = Tgap(), keysGap[0]
+	case "range-moved":
+		after = []world.NodeSpec{
+			{Name: "aaa", Addr: AddrA, Slots: [][2]int{{0, 5460}, {12001, 16383}}},
+			{Name: "bbb", Addr: AddrB, Slots: [][2]int{{5461, 10922}}},
+			{Name: "ccc", Addr: AddrC, Slots: [][2]int{{10923, 12000}}},
+		}
+		moved = keysGap[0]
+	case "master-failed":
+		after = []world.NodeSpec{
+			{Name: "aaa", Addr: AddrA, Slots: [][2]int{{0, 5460}}},
+			{Name: "bbb", Addr: AddrB, Slots: [][2]int{{5461, 8000}}},
+			{Name: "ccc", Addr: AddrC, Slots: [][2]int{{10923, 16383}}, Flags: "fail"},
+			{Name: "ddd", Addr: AddrD, Slots: [][2]int{{8001, 10922}}}, // keeps three usable nodes
+		}
+		gone = keysGap[0]
+	}
+	sc := &world.Scenario{Nodes: before, Bound: bound, Family: "slots-dropped", Horizon: 400,
+		Faults: []world.Fault{{Kind: "topo", Nodes: after}}, Ticks: []time.Duration{1100 * time.Millisecond}}
+	sc.TickGate = func(w *world.World) bool { return w.FaultsDone() }
+	k := gone + moved
+	pre, post, other := GetReq(k), GetReq(k), GetReq(keysA[1])
+	if gone != "" {
+		pre.Expect = nil  // sent before or after the update, depending on the schedule
+		post.Expect = nil // an error of the proxy's choosing (C14 pins that it is an error); what matters here is that no node gets it
+	}
+	cs := ClientOf([]Req{pre, post, other, post}, false)
+	for i := 1; i < 4; i++ {
+		cs.Chunks[i].WaitTicks, cs.Chunks[i].WaitReplies = 1, i
+	}
+	sc.Clients = []world.ClientSpec{cs}
+	sc.Name = fmt.Sprintf("C04/slots-dropped/%s/d%d", kind, bound)
+	sc.Check = func(w *world.World) []world.Violation {
+		var vs []world.Violation
+		for _, rec := range w.DataCmds("") {
+			if rec.CR < 1 || len(rec.Args) < 2 || string(rec.Args[1]) != k {
+				continue
+			}
+			if gone != "" {
+				vs = append(vs, world.Violation{Sig: "routed-to-former-owner", Msg: fmt.Sprintf("%q (slot %d, unowned in the adopted topology) was sent to %s", rec.Raw, world.SpecSlot([]byte(k)), rec.Addr)})
+				break
+			}
+			if rec.Addr != AddrA {
+				vs = append(vs, world.Violation{Sig: "wrong-replica-set", Msg: fmt.Sprintf("%q (slot %d, now owned by %s) was sent to %s", rec.Raw, world.SpecSlot([]byte(k)), AddrA, rec.Addr)})
+				break
+			}
+		}
+		if len(vs) == 0 {
+			vs = CheckStreams(w, StreamOpts{})
+			if gone != "" {
+				rs, _, _ := world.SplitReplies(w.Clients[0].Received)
+				for _, j := range []int{1, 3} {
+					if j < len(rs) && !world.IsError(rs[j]) {
+						vs = append(vs, world.Violation{Sig: "routed-to-former-owner", Msg: fmt.Sprintf("request %d for a key of an unowned slot was answered %q", j, rs[j])})
+					}
+				}
+			}
+		}
+		return vs
+	}
+	return sc
+}
+
 func c04Scenarios(tier string) []*world.Scenario {
 	var out []*world.Scenario
 	thorough := tier == "thorough"
+	for _, kind := range []string{"range-unowned", "range-moved", "master-failed"} {
+		b := 2
+		if thorough {
+			b = 3
+		}
+		out = append(out, c04SlotsDropped(kind, b))
+	}
 	for _, pw := range []string{"", "secret"} {
 		b := 2
 		if thorough {
@@ -719,7 +798,7 @@ func init() {
 		Scenarios: c02Scenarios, BudgetQuick: 100, BudgetThorough: 1500,
 		Assumptions: []string{"multi-megabyte arguments are represented by sizes crossing every buffer threshold in the code (64 B caps, 1 KiB ring default, 4 KiB growth step, 64 KiB read buffer) and one 2 MiB value in the thorough tier"}})
 	register(&Check{ID: "C04", Level: "model_checking",
-		Rule:      "(i) ALL 16384 slots (one brace-free and one hash-tagged key each) as a read and as a write through 2-3 slot layouts (thirds, 64 alternating ranges, single-slot ranges at 0/1/5461/5462/16383), replica reads enabled and disabled; (ii) EVERY forwarded command of the supported table x {0,1,2 replicas} x replica reads on/off x slot positions, under EVERY outcome of every random choice (unbounded); (iii) AUTH/READONLY handshake on every new backend connection with the handshake replies under ALL 2^9 segmentations, and coalesced with the replies to the first requests into one read (fixed and as an explorer choice); (iv) a master with open connections demoted to replica by a topology update (role flip), reads sent after the proxy adopted it; oracle: the receiving node belongs to the replica set owning the specification slot of the key (master for writes, cursor scans, scripts, and always when replica reads are disabled), handshake order AUTH, READONLY, then requests, and no handshake reply surfaces at a client; distinct = observable outcomes",
+		Rule:      "(i) ALL 16384 slots (one brace-free and one hash-tagged key each) as a read and as a write through 2-3 slot layouts (thirds, 64 alternating ranges, single-slot ranges at 0/1/5461/5462/16383), replica reads enabled and disabled; (ii) EVERY forwarded command of the supported table x {0,1,2 replicas} x replica reads on/off x slot positions, under EVERY outcome of every random choice (unbounded); (iii) AUTH/READONLY handshake on every new backend connection with the handshake replies under ALL 2^9 segmentations, and coalesced with the replies to the first requests into one read (fixed and as an explorer choice); (iv) a master with open connections demoted to replica by a topology update (role flip), reads sent after the proxy adopted it; (v) a topology update that leaves a slot range without owner (range dropped, master failed without promotion) or moves it to another live master, requests sent after the proxy adopted it; oracle: the receiving node belongs to the replica set owning the specification slot of the key (master for writes, cursor scans, scripts, and always when replica reads are disabled), handshake order AUTH, READONLY, then requests, and no handshake reply surfaces at a client; distinct = observable outcomes",
 		Scenarios: c04Scenarios, BudgetQuick: 100, BudgetThorough: 1500,
 		Assumptions: []string{"write/read classification is hand-written from the Redis command reference (spec.go)", "corpus keys are brace-free or carry well-formed non-empty hash tags, on which the spec slot function and the proxy's agree (C05 decides the slot function itself)"}})
 }
